@@ -8524,10 +8524,15 @@ def aten_repeat_interleave_self_int(
         x = torch.tensor([[0, 1, 2], [3, 4, 5]])
         x.repeat((1, 2)).reshape((-1, x.shape[1]))
     """
+    static_shape = (
+        list(self.shape) if all(isinstance(size, int) for size in self.shape) else None
+    )
     if dim is None:
         self = op.Reshape(self, [-1])
         dim = 0
         self_rank = 1
+        if static_shape is not None:
+            static_shape = [math.prod(static_shape)]
     else:
         self_rank = len(self.shape)
 
@@ -8546,6 +8551,15 @@ def aten_repeat_interleave_self_int(
             axis=0,
         )
     tiled = op.Expand(unsqueezed, tile_repeat)
+    if isinstance(repeats, int) and static_shape is not None:
+        # Static shape: compute the target here. Reshape's 0 ("copy the input dim") and -1 conventions
+        # give wrong shapes when the tensor has 0-size dimensions.
+        final = [
+            *static_shape[:pos_dim],
+            static_shape[pos_dim] * repeats,
+            *static_shape[pos_dim + 1 :],
+        ]
+        return op.Reshape(tiled, op.Constant(value_ints=final), allowzero=True)
     final_shape = op.Concat(
         op.Shape(self, start=0, end=dim),
         op.Constant(value_ints=[-1]),
